@@ -22,7 +22,7 @@ FIELD = {
     'left_join': 'left_join', 'filters': 'filters', 'sql_key': 'sql_key', 'arguments_key': 'arguments_key', 'sql': 'sql',
     'original_sql': 'sql', 'paramstyle': 'paramstyle', 's': 'source_text', 'codeobject': 'codeobject_id',
     # components a repaired key may carry
-    'scope_classification': 'scope_classification', 'call_kinds': 'scope_classification', 'outer_names': 'outer_names',
+    'tree.__class__': 'tree_kind', 'scope_classification': 'scope_classification', 'call_kinds': 'scope_classification', 'outer_names': 'outer_names',
 }
 
 
